@@ -243,7 +243,8 @@ impl Property for C12 {
     fn cases(&self, tier: Tier) -> u64 {
         tier.pick(60_000, 3_000_000)
     }
-    fn strategy(&self, _tier: Tier) -> BoxedStrategy<Case> {
+    fn strategy(&self, tier: Tier) -> BoxedStrategy<Case> {
+        let max_prog = tier.pick(12, 30) as usize;
         prop_oneof![
             2 => field_chain(FId::Fq),
             1 => field_chain(FId::Fr),
@@ -252,7 +253,7 @@ impl Property for C12 {
             5 => bytes32_near().prop_map(|b| Case::Decode { b }),
             1 => gen::bytes(0..=80usize).prop_map(|b| Case::Slice { bytes: HexBytes(b) }),
             2 => (gen::fq_special(), gen::fq_special()).prop_map(|(r1, r2)| Case::Hash { r1, r2 }),
-            2 => (proptest::collection::vec(recipe::recipe_small(), 2..=4), proptest::collection::vec(ginstr(), 1..=12)).prop_map(|(regs, prog)| Case::Program { regs, prog }),
+            2 => (proptest::collection::vec(recipe::recipe_small(), 2..=4), proptest::collection::vec(ginstr(), 1..=max_prog)).prop_map(|(regs, prog)| Case::Program { regs, prog }),
         ]
         .boxed()
     }
